@@ -493,8 +493,8 @@ func ruleEdgesFromAllNodes(c *Check, rule string) {
 // description never compute a digest: a digest of some file put into the description (a fingerprint entry, say)
 // makes the target depend on a file that `owners` does not attribute to it.
 func ruleNoDigestInDescription(c *Check, rule string) {
-	c.Rule(rule, "no function of the packages that build the target description (loading, model, label) calls a digest function (crypto/*, hash/*, xxh3, internal/hashing): contents reach the key only through Target.Inputs", 1)
-	n, sites := 0, 0
+	c.Rule(rule, "no digest computed by the packages that build the target description (loading, model, label: calls into crypto/*, hash/*, xxh3, internal/hashing) flows into a field of the loader DTOs or of the model: contents reach the key only through Target.Inputs", 1)
+	n, sites, digests := 0, 0, 0
 	for _, fn := range c.P.Funcs {
 		if !(engine.InPackage(fn, "loading") || engine.InPackage(fn, "model") || engine.InPackage(fn, "label")) {
 			continue
@@ -507,10 +507,32 @@ func ruleNoDigestInDescription(c *Check, rule string) {
 			sites++
 			name := engine.CalleeName(s)
 			name = strings.TrimPrefix(strings.TrimPrefix(name, "(*"), "(")
-			if strings.HasPrefix(name, "crypto/") || strings.HasPrefix(name, "hash/") || strings.HasPrefix(name, "github.com/zeebo/xxh3") || strings.HasPrefix(name, "grog/internal/hashing") {
-				c.Bad(rule, "no-digest-in-description/"+c.P.FuncName(fn), "a digest is computed while the target description is built ("+engine.CalleeName(s)+"): whatever it covers becomes part of the target's state without being one of its inputs, so editing it re-executes targets that `owners` does not list", c.P.InstrPos(s))
+			if !(strings.HasPrefix(name, "crypto/") || strings.HasPrefix(name, "hash/") || strings.HasPrefix(name, "github.com/zeebo/xxh3") || strings.HasPrefix(name, "grog/internal/hashing")) {
+				continue
+			}
+			digests++
+			var srcs []Node
+			if v := s.Value(); v != nil {
+				srcs = append(srcs, v)
+			}
+			for _, a := range s.Common().Args {
+				srcs = append(srcs, a) // a hasher object that is written to and summed later
+			}
+			fwd := c.G.Forward(srcs, nil)
+			var hit []string
+			for node := range fwd.Parent {
+				if k, ok := node.(engine.FieldKey); ok && (strings.HasPrefix(k.T, "loading.") && strings.HasSuffix(k.T, "DTO") || strings.HasPrefix(k.T, "model.")) {
+					hit = append(hit, k.String())
+				}
+			}
+			if len(hit) > 0 {
+				sort.Strings(hit)
+				if len(hit) > 4 {
+					hit = append(hit[:4], "…")
+				}
+				c.Bad(rule, "no-digest-in-description/"+c.P.FuncName(fn), "a digest computed while the target description is built ("+engine.CalleeName(s)+") flows into "+strings.Join(hit, ", ")+": whatever it covers becomes part of the target's state without being one of its inputs, so editing it re-executes targets that `owners` does not list", c.P.InstrPos(s))
 			}
 		}
 	}
-	c.OK(rule, "no-digest-in-description", strconv.Itoa(sites)+" call sites in "+strconv.Itoa(n)+" functions of loading, model and label: none calls a digest function", "-")
+	c.OK(rule, "no-digest-in-description", strconv.Itoa(sites)+" call sites in "+strconv.Itoa(n)+" functions of loading, model and label, "+strconv.Itoa(digests)+" of them digest computations: none flows into the description", "-")
 }
